@@ -177,6 +177,9 @@ def generate(seed: int, config: str, tier: str) -> Dict[str, Any]:
             expr = gen_patch.enc(loc[:-1]) + "/" + rng.choice(["~", "#"]) + str(loc[-1])
     else:
         prof = gen_patch.patch_profile(rng)
+        if rng.random() < 0.4:
+            # member names on which escape decoding / URI decoding of the op paths makes a difference
+            prof["keys"] = prof["keys"] + ["ä", "é", "\\u0061", "%41", "a%20b"]
         doc = gen_patch.gen_pdoc(rng, prof)
         kinds = [k for k in ["add", "remove", "replace", "move", "copy", "test", "addne", "addap"] if rng.random() < 0.8] or ["add"]
         patch = gen_patch.gen_oplist(rng, prof, JSONPatch, doc, rng.randint(0, 6), kinds)
